@@ -40,6 +40,18 @@ checks = {
    technique="stateless model checking of the firing cycle against the cron library's occurrence sequence",
    text="Every interleaving of the firing cycle (schedule batch size 1, 2, 100; several cycles) with create / delete / re-create (same and different idempotency key) of the schedule and a user creating an occurrence's promise id, with clock steps just before, onto and far past occurrences (jumps over up to 60 occurrences), one failure and one crash mid-cycle. At every commit: next run time advances by exactly one occurrence per firing, never early, together with the occurrence's promise (id = template expansion, timeout = occurrence + promise timeout, configured param and tags plus the two marker tags) in the same commit; nothing of a deleted schedule fires for an occurrence later than the deletion; the epilogue runs cycles to quiescence and every occurrence in (created_on, clock] must have its promise.",
    note="robfig/cron (through util.Next) defines 'occurrence'. Templates limited to {{.id}} and {{.timestamp}}. The crash on schedules whose promises route to a receiver was repaired by a fix: commit."),
+ "C06": dict(engine=A, design="4/C06",
+   technique="crash-point enumeration on the real kernel (crash = one explored action at every action boundary, deviation-bounded in quick, unbounded in thorough) + the real serve binary killed and restarted on its SQLite file",
+   text="Five workloads (routed create + claim + complete; registration then completion; overdue promise with registrations and the sweep; schedule creation and firing of routed promises; lock and task leases) with a crash at every action boundary - before a submission executes, after it committed but before its completion is delivered, between any two steps of any coroutine, in the middle of every sweep - then restart, read-back through the API and background cycles. Oracles: an acknowledged mutation was committed before it was acknowledged and is still there after every restart; the database after restart equals the database at the crash; cross-table invariants (no registration on a non-pending promise, routed promise has its task, completed promise has no active task, advanced schedule has its promise) at every commit and after every restart; convergence after restart. A second job builds the real `resonate` binary from the tree, runs serve, performs 1-4 HTTP mutations, sends SIGTERM or SIGKILL, restarts on the same file with the default configuration and reads everything back.",
+   note="Quick: <=4 deviations from the canonical schedule (the crash is one of them); thorough: unbounded, two crashes. SQLite's journal/fsync machinery is trusted: a crash is process death between SQL transactions."),
+ "C11": dict(engine=A, design="4/C11",
+   technique="bounded-liveness model checking of the un-gated kernel (real Tick start logic) over a configuration grid, obligations discharged within a state-dependent number of cycles",
+   text="The real kernel with its own background start logic runs 20 (40 thorough) cycles from two rich database states over the configuration grid {promise/schedule/task batch size 1,2,100} x {coroutine pool 1,2,5,1000} x {signal timeout 1ms,1s} x {enqueue delay 1s,10s} x {completion/submission batch 1,1000}; the explorer picks the order of the sweeps' submissions (deviation bound 1, 2 thorough) and the placement of one (two) store/router/sender failure. Every obligation (overdue promise, expired lock, unfired occurrence, undispatched task, lapsed task lease) must disappear or change identity within K cycles, K computed from the state.",
+   note="F6 (sweeps starve when the coroutine pool is smaller than five) repaired by a fix: commit; one known finding (task batch size 1 starves later roots when dispatched tasks are never claimed). Enqueue delay 0 is outside the documented range and excluded."),
+ "C14": dict(engine=A, design="4/C14",
+   technique="exhaustive enumeration of queries x cursor traversals x mutation placements on the real kernel, through the real api helper and cursor codec, against a reference matcher",
+   text="5 promises (ids a, ab, abc, b/a, ba; every state, one becoming overdue; tag subsets) and 4 schedules; every query {*, a*, *a, *b*, exact} x state filter x tag subset x page size {1,2,3,100}; every complete cursor traversal with up to 3 (4) mutations {create, complete, clock past a timeout, sweep, delete schedule} placed before any page. Oracle: always-matching subset of returned subset of sometime-matching, no id twice, strictly newest-first, page <= limit, cursor iff full page, overdue never reported pending, forged cursor refused.",
+   note="Lowercase ids without LIKE metacharacters (matching is only defined that far). One known finding: an overdue but not yet swept promise is invisible to state-filtered searches."),
 }
 m = {
  "version": 1,
